@@ -2,6 +2,7 @@
 C04 — Serialiser enforces the size limit exactly and stays inside its buffers.
 -/
 import CoapLite.Lemmas.CodecFwd
+import CoapLite.Lemmas.CopyTrace
 
 namespace CoapLite.C04
 open CoapLite Codec Spec
@@ -38,6 +39,22 @@ theorem enc_refuses_long (p : Packet) (lim : Option Nat) (h : ¬ AllFit p) :
 
 theorem enc_never_panics (p : Packet) (lim : Option Nat) : enc p lim ≠ .panic :=
   Codec.enc_never_panics p lim
+
+/-- memory bookkeeping (ghost model `Codec.encTrace`, compared event by event
+with the hook trace of the real serialiser): for every message and every limit,
+every raw-pointer copy lies within the capacity guaranteed by the `reserve`
+calls made before it.  (Requested capacity – a lower bound on the real one; the
+harness additionally checks every copy against the real capacity.) -/
+theorem copies_in_bounds (p : Packet) (limit : Option Nat) :
+    boundsOk (fun _ => 0) (encTrace p limit) = true :=
+  Codec.encTrace_boundsOk p limit
+
+/-- … and the copies account for every byte of the result: 4 header bytes, the
+bytes copied into the output buffer, and the payload marker -/
+theorem copies_account_for_output (p : Packet) (limit : Option Nat) (bs : Bytes)
+    (h : enc p limit = .ok bs) :
+    bs.length = 4 + copied 1 (encTrace p limit) + (if sent p then 1 else 0) :=
+  Codec.encTrace_copied p limit bs h
 
 /-! non-vacuity: landing exactly on the limit -/
 example : enc { Packet.new with payload := List.replicate 3 0x55 } (some 8) =
